@@ -16,8 +16,10 @@ CLAIM = dict(
           "p and default-transposing twice restore shape and every index; swapaxes is NumPy's swap and a transpose by a "
           "permutation; flip (None, one axis, an axis list; negative axes normalised as in NumPy) reads NumPy's element and flipping twice is the identity; squeeze after "
           "expand_dims restores a unit-free shape and every index; every index map stays inside the source. "
-          "PARTIAL: moveaxis (single axes and axis lists) is proved for sources of dimension <= 5 (any extents) by a kernel "
-          "sweep of the finite argument space; above that it is corresponded only. "
+          "moveaxis with one source and one destination axis (moveaxis(a, s, d), negative spellings included) is proved for "
+          "EVERY dimension: the library's order is NumPy's, a permutation, shape / element / in-bounds follow. "
+          "PARTIAL: moveaxis with axis LISTS is proved for sources of dimension <= 5 (any extents) by a kernel "
+          "sweep of the finite argument space; above that lists are corresponded only. "
           "REFUTED (listed finding): a 0-d result (squeeze of an all-ones shape, reshape to ()) comes back as Nothing. "
           "(flip with a negative axis used to be a no-op; repaired by the fix: commit 'flip normalises a negative axis', "
           "model and theorem follow the repaired code.) "
@@ -41,7 +43,7 @@ THEOREM_STATUS = {
     "proved": ["C03_reshape_shape", "C03_reshape_C_order", "C03_flatten", "C03_transpose_shape", "C03_transpose_element",
                "C03_transpose_bijection", "C03_transpose_inverse", "C03_transpose_default_involutive", "C03_swapaxes",
                "C03_expand_dims", "C03_squeeze", "C03_atleast_nd", "C03_flip", "C03_flip_flip",
-               "C03_squeeze_expand_dims", "C03_index_maps_in_bounds"],
+               "C03_squeeze_expand_dims", "C03_index_maps_in_bounds", "C03_moveaxis_single_axis"],
     "partial": ["C03_moveaxis_upto_dim5_partial"],
     "refuted": ["C03_zero_dim_result_refuted"]}
 ASSUMPTIONS = ["extents are positive and element counts stay below 2^64 (size_t products in shape_reshape)",
